@@ -378,6 +378,9 @@ func (c *Ctx) builtinSemantics(fr *Frame, st *State, callee *ssa.Function, args 
 		if c.mode == BV {
 			return c.mkVal(f64, fmt.Sprintf("((_ to_fp 11 53) %s)", args[0].S)), true
 		}
+	case "sync.(*Mutex).Lock", "sync.(*Mutex).Unlock", "sync.(*RWMutex).Lock", "sync.(*RWMutex).Unlock", "sync.(*RWMutex).RLock", "sync.(*RWMutex).RUnlock":
+		c.trusted["sync.Mutex Lock/Unlock: no effect on the sequential state (blocking and memory ordering not modelled)"] = true
+		return Val{T: rt}, true
 	case "bytes.IndexByte":
 		if len(args) == 2 && args[0].S != "" && args[1].S != "" && c.mode == INT {
 			// a deterministic function of the slice contents; characterised by first-occurrence axioms
@@ -697,7 +700,7 @@ func (c *Ctx) applyGhost(cl *Clause, env *SpecEnv, st *State) {
 	v := c.specVal(env, e, types.Typ[types.Uint64])
 	cur, ok := st.ghost[g]
 	if !ok {
-		return
+		cur = "0"
 	}
 	amt := v.S
 	if c.mode == BV {
